@@ -53,6 +53,34 @@ func checkBigEndian8(c *Check, w *World, tb *TB, rule string, f *ssa.Function, v
 			return "other:" + n
 		}
 	}
+	if len(stores) == 0 {
+		// delegation: the result is G(V) with G a module function that is itself the big-endian-8 encoder of its argument
+		res := tb.Results(f, nil, nil, 0)
+		var calls []*Term
+		other := false
+		for _, a := range res[0].Alts() {
+			switch {
+			case a.IsConst():
+			case a.Op == "call" && len(a.Args) == 1:
+				calls = append(calls, a)
+			default:
+				other = true
+			}
+		}
+		if len(calls) == 1 && !other {
+			if cl, ok := calls[0].Val.(*ssa.Call); ok && cl.Call.StaticCallee() != nil && w.InModule(cl.Call.StaticCallee()) && cl.Call.StaticCallee() != f && len(cl.Call.StaticCallee().Params) == 1 {
+				g := cl.Call.StaticCallee()
+				if !vMatch(calls[0].Args[0]) {
+					c.Bad(rule, fn, "big-endian-8", "the encoder "+FuncName(g)+" is applied to "+clip(calls[0].Args[0].String(), 120)+", not to "+vDesc, w.InstrPos(cl))
+					return "other-arg"
+				}
+				gp := tb.Of(g.Params[0]).String()
+				sig := checkBigEndian8(c, w, tb, rule, g, func(t *Term) bool { return t.String() == gp }, "the argument")
+				c.Decide(sig == "big-endian-8(V)", rule, fn, "big-endian-8", "delegates to "+FuncName(g)+"("+vDesc+"), checked as the big-endian-8 encoder", "delegates to "+FuncName(g)+", which is not a big-endian-8 encoder", w.InstrPos(cl))
+				return sig
+			}
+		}
+	}
 	if len(stores) != 1 {
 		c.Unk(rule, fn, "byte-sweep", fmt.Sprintf("%d byte stores, expected the single store of the sweep loop", len(stores)), pos)
 		return ""
@@ -144,6 +172,142 @@ func checkBigEndian8(c *Check, w *World, tb *TB, rule string, f *ssa.Function, v
 	return fmt.Sprintf("buf8=%v val=%s idx=%v", okBuf, normT(vt), okIdx)
 }
 
+// padInfo describes "src padded with ch on one side up to width".
+type padInfo struct {
+	src   *Term
+	side  string // "left" or "right"
+	ch    string // the pad text, quoted constant
+	width int64  // -1 for the loop form (the caller reads the loop bound)
+}
+
+// padForm recognises the two padding idioms: the loop (s = s + ch / s = ch + s while len(s) < W) and the guarded
+// one-shot form (if W - len(s) > 0 { s = s + Repeat(ch, W - len(s)) }), whose amount and guard are checked
+// by folding them for every length 0..W+8 (single linear comparison, so the truth beyond is settled).
+func padForm(t *Term) (padInfo, bool) {
+	switch {
+	case t.Op == "phi":
+		var pi padInfo
+		pi.width = -1
+		n := 0
+		for _, a := range t.Alts() {
+			if a.Op == "bin" && a.Sym == "+" && len(a.Args) == 2 {
+				n++
+				switch {
+				case a.Args[0].Op == "cycle" && a.Args[1].IsConst():
+					if pi.side != "" && (pi.side != "right" || pi.ch != a.Args[1].Sym) {
+						return pi, false
+					}
+					pi.side, pi.ch = "right", a.Args[1].Sym
+				case a.Args[1].Op == "cycle" && a.Args[0].IsConst():
+					if pi.side != "" && (pi.side != "left" || pi.ch != a.Args[0].Sym) {
+						return pi, false
+					}
+					pi.side, pi.ch = "left", a.Args[0].Sym
+				default:
+					return pi, false
+				}
+			} else if a.Op == "cycle" {
+			} else {
+				if pi.src != nil {
+					return pi, false
+				}
+				pi.src = a
+			}
+		}
+		return pi, n > 0 && pi.src != nil
+	case t.Op == "ite" && len(t.Args) == 3:
+		cnd, t1, t2 := t.Args[0], t.Args[1], t.Args[2]
+		var pi padInfo
+		var padded *Term
+		switch {
+		case t1.Op == "bin" && t1.Sym == "+" && (t1.Args[0].String() == t2.String() || t1.Args[1].String() == t2.String()):
+			pi.src, padded = t2, t1
+		case t2.Op == "bin" && t2.Sym == "+" && (t2.Args[0].String() == t1.String() || t2.Args[1].String() == t1.String()):
+			pi.src, padded = t1, t2
+		default:
+			return pi, false
+		}
+		var rep *Term
+		if padded.Args[0].String() == pi.src.String() && padded.Args[1].Op == "call" {
+			pi.side, rep = "right", padded.Args[1]
+		} else if padded.Args[1].String() == pi.src.String() && padded.Args[0].Op == "call" {
+			pi.side, rep = "left", padded.Args[0]
+		} else {
+			return pi, false
+		}
+		if rep.Sym != "strings.Repeat" || len(rep.Args) != 2 || !rep.Args[0].IsConst() {
+			return pi, false
+		}
+		pi.ch = rep.Args[0].Sym
+		L := "len(" + pi.src.String() + ")"
+		if !linearIn(cnd, L) || !linearIn(rep.Args[1], L) {
+			return pi, false
+		}
+		W, ok := evalSmall(rep.Args[1], L, 0)
+		if !ok || W <= 0 || W > 1<<16 {
+			return pi, false
+		}
+		for l := int64(0); l <= W+8; l++ {
+			cv, ok1 := evalSmall(cnd, L, l)
+			n, ok2 := evalSmall(rep.Args[1], L, l)
+			if !ok1 || !ok2 {
+				return pi, false
+			}
+			takesPad := (cv != 0) == (padded == t1)
+			if !takesPad {
+				n = 0
+			}
+			want := W - l
+			if want < 0 {
+				want = 0
+			}
+			if n != want {
+				return pi, false
+			}
+		}
+		pi.width = W
+		return pi, true
+	}
+	return padInfo{}, false
+}
+
+// linearIn: t is built from constants, the symbol sym, +, - and at most one comparison at the top.
+func linearIn(t *Term, sym string) bool {
+	var lin func(x *Term) bool
+	lin = func(x *Term) bool {
+		switch {
+		case x.String() == sym, x.IsConst():
+			return true
+		case x.Op == "conv" && len(x.Args) == 1:
+			return lin(x.Args[0])
+		case x.Op == "bin" && (x.Sym == "+" || x.Sym == "-") && len(x.Args) == 2:
+			return lin(x.Args[0]) && lin(x.Args[1])
+		}
+		return false
+	}
+	if t.Op == "bin" && len(t.Args) == 2 {
+		switch t.Sym {
+		case "<", "<=", ">", ">=":
+			return lin(t.Args[0]) && lin(t.Args[1])
+		}
+	}
+	return lin(t)
+}
+
+// loopPadsTo: the padding loop over text t runs exactly while len(t) < width.
+func loopPadsTo(tb *TB, f *ssa.Function, t *Term, width int64) bool {
+	ok := false
+	EachInstr(f, func(in ssa.Instruction) {
+		if iff, isIf := in.(*ssa.If); isIf {
+			ct := tb.Of(iff.Cond)
+			if ct.Op == "bin" && ct.Sym == "<" && ct.Args[0].String() == "len("+t.String()+")" && ct.Args[1].IsConst() && ct.Args[1].Sym == fmt.Sprint(width) {
+				ok = true
+			}
+		}
+	})
+	return ok
+}
+
 func isConstInt(v ssa.Value, k int64) bool {
 	x, ok := constInt(v)
 	return ok && x.Int64() == k
@@ -161,12 +325,28 @@ func runC17(c *Check, w *World) {
 	}
 	// R17.1 / R17.2
 	var sigs []string
+	delegated := map[*ssa.Function]*ssa.Function{}
 	for _, n := range []string{"ParseDecimalToBigEndian8", "ParseDecimal64BigEndian"} {
 		f := get(n)
 		if f == nil {
 			continue
 		}
 		fn := FuncName(f)
+		// whole-function delegation to the sibling (return G(s)) inherits the sibling's obligations
+		if rs := tb.Results(f, nil, nil, 0); len(rs) == 2 && rs[0].Op == "extract" && rs[1].Op == "extract" && rs[0].Sym == "0" && rs[1].Sym == "1" &&
+			rs[0].Args[0].String() == rs[1].Args[0].String() && rs[0].Args[0].Op == "call" && len(rs[0].Args[0].Args) == 1 && rs[0].Args[0].Args[0].String() == fmt.Sprintf("param(%s#0)", fn) {
+			if cl, ok := rs[0].Args[0].Val.(*ssa.Call); ok && cl.Call.StaticCallee() != nil {
+				g := cl.Call.StaticCallee()
+				if g != f && (g == w.Func(OtpPath, "ParseDecimalToBigEndian8") || g == w.Func(OtpPath, "ParseDecimal64BigEndian")) {
+					c.OK("R17.1", fn, "decimal-parse", "returns "+FuncName(g)+"(s) unchanged; that sibling is checked", w.InstrPos(cl))
+					c.OK("R17.1", fn, "parse-error-returned", "returns "+FuncName(g)+"(s) unchanged; that sibling is checked", w.InstrPos(cl))
+					c.OK("R17.1", fn, "ParseUint-gate", "returns "+FuncName(g)+"(s) unchanged; that sibling is checked", w.InstrPos(cl))
+					c.OK("R17.2", fn, "big-endian-8", "returns "+FuncName(g)+"(s) unchanged; that sibling is checked", w.InstrPos(cl))
+					delegated[f] = g
+					continue
+				}
+			}
+		}
 		want := fmt.Sprintf("call(strconv.ParseUint; param(%s#0); const(10); const(64))", fn)
 		found := false
 		EachInstr(f, func(in ssa.Instruction) {
@@ -213,17 +393,10 @@ func runC17(c *Check, w *World) {
 			hx := dec.Args[0]
 			okPad, okSrc := false, false
 			var src *Term
-			if hx.Op == "phi" {
-				okPad = true
-				for _, a := range hx.Alts() {
-					if a.Op == "bin" && a.Sym == "+" {
-						if !(a.Args[0].Op == "cycle" && a.Args[1].IsConst() && a.Args[1].Sym == `"0"`) {
-							okPad = false // "0" on the left, or another pad character
-						}
-					} else {
-						src = a
-					}
-				}
+			pi, isPad := padForm(hx)
+			if isPad {
+				okPad = pi.side == "right" && pi.ch == `"0"`
+				src = pi.src
 			}
 			if src != nil {
 				s := src
@@ -240,15 +413,10 @@ func runC17(c *Check, w *World) {
 			c.Decide(okSrc, "R17.3", fn, "decimal-to-hex", "the question is read as a base-10 big integer and written as base-16 text", "the text that is padded is "+clip(normT(hx), 240)+", not hex(decimal(question))", pos)
 			c.Decide(okPad, "R17.3", fn, "right-pad", "the hex text is padded on the right with '0'", "the hex text is not right-padded with '0' (left padding shifts the value; RFC 6287 pads on the right)", pos)
 			// loop bound 256
-			okBound := false
-			EachInstr(f, func(in ssa.Instruction) {
-				if iff, ok := in.(*ssa.If); ok {
-					t := tb.Of(iff.Cond)
-					if t.Op == "bin" && t.Sym == "<" && t.Args[0].String() == "len("+hx.String()+")" && t.Args[1].IsConst() && t.Args[1].Sym == "256" {
-						okBound = true
-					}
-				}
-			})
+			okBound := isPad && pi.width == 256
+			if isPad && pi.width < 0 {
+				okBound = loopPadsTo(tb, f, hx, 256)
+			}
 			c.Decide(okBound, "R17.3", fn, "pad-width", "padding continues while the text is shorter than 256 hex digits (128 bytes)", "the padding does not stop at exactly 256 hex digits", pos)
 		}
 		// failure of SetString -> error
@@ -271,17 +439,15 @@ func runC17(c *Check, w *World) {
 		fn := FuncName(f)
 		res := tb.Results(f, nil, nil, 0)
 		p0 := fmt.Sprintf("param(%s#0)", fn)
-		want := fmt.Sprintf("extract(0; call(encoding/hex.DecodeString; phi(bin(+; const(\"0\"); cycle(*)); %s)))", p0)
-		c.Decide(normT(res[0]) == want, "R17.4", fn, "left-pad-16", "hex text is left-padded with '0' and decoded", "result is "+clip(normT(res[0]), 240), w.Pos(f.Pos()))
-		okBound := false
-		EachInstr(f, func(in ssa.Instruction) {
-			if iff, ok := in.(*ssa.If); ok {
-				t := tb.Of(iff.Cond)
-				if t.Op == "bin" && t.Sym == "<" && strings.HasPrefix(t.Args[0].String(), "len(") && t.Args[1].IsConst() && t.Args[1].Sym == "16" {
-					okBound = true
-				}
+		okShape, okBound := false, false
+		if r0 := res[0]; r0.Op == "extract" && r0.Sym == "0" && r0.Args[0].Op == "call" && r0.Args[0].Sym == "encoding/hex.DecodeString" {
+			hx := r0.Args[0].Args[0]
+			if pi, ok := padForm(hx); ok && pi.side == "left" && pi.ch == `"0"` && pi.src.String() == p0 {
+				okShape = true
+				okBound = pi.width == 16 || (pi.width < 0 && loopPadsTo(tb, f, hx, 16))
 			}
-		})
+		}
+		c.Decide(okShape, "R17.4", fn, "left-pad-16", "hex text is left-padded with '0' and decoded", "result is "+clip(normT(res[0]), 240), w.Pos(f.Pos()))
 		c.Decide(okBound, "R17.4", fn, "pad-width", "padding continues while shorter than 16 hex digits (8 bytes)", "the padding does not stop at 16 hex digits", w.Pos(f.Pos()))
 	}
 	// R17.5 LeftPadHex
@@ -347,7 +513,7 @@ func runC17(c *Check, w *World) {
 		c.Decide(n == 5, "R17.6", fn, "five-decodes", "each of the five arguments is decoded once", fmt.Sprintf("%d hex decodes, expected five", n), w.Pos(f.Pos()))
 	}
 	// siblings agree
-	if len(sigs) == 3 {
+	if len(sigs) >= 2 {
 		same := true
 		base := strings.NewReplacer("extract(0; call(strconv.ParseUint; param(otp.ParseDecimalToBigEndian8#0); const(10); const(64)))", "V", "extract(0; call(strconv.ParseUint; param(otp.ParseDecimal64BigEndian#0); const(10); const(64)))", "V", "param(otp.To8ByteBigEndian#0)", "V")
 		for _, s := range sigs[1:] {
